@@ -26,7 +26,7 @@ CLAIM = dict(
           'index expressions for every even axis size ≤ 8 — pair every operand chunk with the matching shard exactly once; the matmul cumsum takes the parallel path '
           'iff the summed axis is sharded and names that mesh axis; the sharding-constraint helper drops / blanks the level entry for 2-D and single-level arrays. '
           'Also decided: padded extents (modal_shape / .shape / len of tail-padded spectral arrays) never enter arithmetic with wavenumber data; implementation transforms are referenced only as the function handed to _with_vertical_padding together with the mesh of the same grid (decided on values, so aliases and keyword spelling do not matter). Does not decide numerical equality of sharded and unsharded results, nor NaN-freedom in general.'
-          ' Later additions: C07.5 shard frequency offset; C07.9 shared arrays; C07.11 the cumulative-sum (z-sharded / blockwise) form of the temperature coupling equals the dense one (C03.3b re-filed); C07.12 the clip mask counts from the resolved truncation for every n and every fast path.'),
+          ' Later additions: C07.5 shard frequency offset; C07.9 shared arrays; C07.11 the cumulative-sum (z-sharded / blockwise) form of the temperature coupling equals the dense one (C03.3b re-filed); C07.12 the clip mask counts from the resolved truncation for every n and every fast path. C07.13 representation dispatch by shape: padded nodal and modal shapes are folded over the named grids × (x, y) meshes (finding F8); C07.1 a padding-aware index uses the padding component of the axis it indexes.'),
     note=('Trusted: jax.lax collectives (ppermute moves data src→dst, psum(1) is the axis size, axis_index), shard_map semantics, PartitionSpec positions. The schedule '
           'folding enumerates device ids and loop counters over finite ranges on index expressions extracted from the current source; no dinosaur code is executed.'),
     technique='package-wide dataflow scan (padded-array taint) + who-may-call + spec algebra + finite folding of collective-schedule index expressions',
